@@ -36,6 +36,21 @@ func runRouterReadOnly(c *Ctx, ruleID string) {
 						if fa, ok := x.Addr.(*ssa.FieldAddr); ok && strip(fa.X) == ssa.Value(recv) {
 							bad, why = x, "stores into the router field "+derefStruct(fa.X.Type()).Field(fa.Field).Name()
 						}
+					case ssa.CallInstruction:
+						f := calleeOf(x)
+						if f == nil || f.Pkg() == nil || (f.Pkg().Path() != "slices" && f.Pkg().Path() != "sort") {
+							return
+						}
+						for _, m := range []string{"Sort", "Stable", "Reverse", "Compact", "Delete", "Insert", "Replace", "Slice", "Strings"} {
+							if !strings.HasPrefix(f.Name(), m) {
+								continue
+							}
+							for _, a := range x.Common().Args {
+								if strip(a) == ssa.Value(fn.Params[len(fn.Params)-1]) {
+									bad, why = in, "reorders the caller's list of pipeline ids in place ("+f.Pkg().Name()+"."+f.Name()+")"
+								}
+							}
+						}
 					case *ssa.Slice:
 						// re-using a slice held by the router as the selection buffer
 						if u, ok := strip(x.X).(*ssa.UnOp); ok && u.Op == token.MUL {
@@ -229,6 +244,7 @@ func runC16Round4(c *Ctx) {
 		c.OK("gzip decoder reads all members", "-", fmt.Sprintf("%d constructions, multistream mode untouched", nz))
 	}
 
+	runSharedDefaults(c, "R13", "every server has a decoder table of its own: ToServer never starts from a package-level options value that holds the decoders map, and the package's table of built-in decoders is read, never handed out", "a decoder registered with WithDecoder on one server is served by every other server of the process: a plain server answers 200 for an encoding it never enabled, or decodes snappy with a foreign decoder", []string{"config/confighttp"})
 	c.Rule("R12", "PAIR", "a body reader that returns its decoder to a sync.Pool when it is closed does so at most once: the Put in Close is guarded by the reader's own closed/once state – both the handler and the middleware close the body, and a decoder that is pooled twice is handed to two requests at the same time", 0)
 	n := 0
 	for _, fn := range p.AllSrcFuncs(pk) {
@@ -700,6 +716,7 @@ func isStringType(t types.Type) bool {
 func runC14Round4(c *Ctx) {
 	p := c.P
 	shareRule(c, "C12", runC12, []string{"C12.R8"}, "R10", "TAB", "an expanded value assigned to an opaque string (a named string type) is given its original text: the decode hook chooses the text by the target's kind, not by identity with the plain string type (same rule as C12.R8) – `password: ${env:PIN}` with PIN=0123 stores \"0123\", not \"83\"", 1)
+	runSharedDefaults(c, "R12", "the default client configurations are values of their own: no function of the HTTP/gRPC client configuration packages copies a package-level struct that holds a map (the `headers` map of opaque strings) – a default computed once and handed out by value would make every client decode its secret headers into the same map", "two HTTP clients with a `headers:` section in one process: the later decode writes into the earlier client's map – the first client sends the second one's secret, or the second holds and sends the first one's headers", []string{"config/confighttp", "config/configgrpc"})
 	c.Rule("R11", "DEP", "unmarshalling stores the secret unchanged: if the opaque string type has a decoding method (UnmarshalText/JSON/YAML/Binary, Unmarshal, Set), what it stores is its input converted to the type, with no call in between (no trimming, unquoting, case folding)", 1)
 	T := p.LookupType("config/configopaque", "String")
 	if T == nil {
@@ -2507,6 +2524,14 @@ func runC15Round5(c *Ctx) {
 					case *ssa.BinOp:
 						if x.Op == token.REM {
 							up = true
+						}
+						// (d + time.Second - 1) / time.Second
+						if x.Op == token.ADD || x.Op == token.SUB {
+							for _, o := range []ssa.Value{x.X, x.Y} {
+								if k, ok := constInt(o); ok && (k == 999999999 || (x.Op == token.SUB && k == 1)) {
+									up = true
+								}
+							}
 						}
 					case *ssa.Call:
 						if f := calleeOf(x); f != nil && f.Pkg() != nil && f.Pkg().Path() == "math" && f.Name() == "Ceil" {
